@@ -13,3 +13,10 @@ mod generated_app;
 mod interner;
 mod path_parameters;
 mod traits;
+
+#[cfg(feature = "verif_hooks")]
+pub(crate) fn verif_domain_guard_new(domain: &str) -> Result<(String, String), String> {
+    analyses::domain::DomainGuard::new(domain.to_owned())
+        .map(|g| (g.to_string(), g.matchit_pattern()))
+        .map_err(|e| format!("{e:?}"))
+}
